@@ -1,6 +1,6 @@
 """C02: request bodies reach the origin byte-exactly with valid framing (end to end through the real squid)."""
-import concurrent.futures, json, random, resource, time
-from vlib import std, lab, common
+import concurrent.futures, json, os, random, resource, time
+from vlib import std, lab, common, hbuild, recipes, corr, coq
 from checks import relay_common as rc
 
 PID = "C02"
@@ -27,7 +27,8 @@ META = {
             "extraction, gen/gen_relay.cc, vlib/lab.py, checks/relay_common.py stubs.",
     "technique": "Coq proof (inductive invariant over event sequences; codec round trip) + end-to-end differential "
                  "correspondence of the extracted model against the running squid + independent Python reference reader "
-                 "as oracle on the raw bytes the origin received",
+                 "as oracle on the raw bytes the origin received + unit-level differential run of the real BodyPipe.cc "
+                 "(harness/h_relay.cc) against the same model on random put/get/abort/notification sequences",
 }
 
 BOUNDS = [2048, 4096, 16384, 32768, 65535, 65536]
@@ -248,8 +249,114 @@ def kind_fn(s, o):
     return k
 
 
-def model_fix(s):
+# ---------------------------------------------------------------------------------------------------------
+# unit-level stage: the real BodyPipe.cc (compiled from the working tree) against the model, op sequence by
+# op sequence (deterministic; reaches the capacity boundary and every notification order)
+# ---------------------------------------------------------------------------------------------------------
+UNIT_LINK = [x for x in recipes.HTTPREPLY if x != "tests/stub_libmem.o"] + ["mem/libmem.la"]
+
+
+def build_unit():
+    return hbuild.build("h_relay", "h_relay.cc", fresh=["src/BodyPipe.cc"], link=UNIT_LINK, sanitize="ubsan")
+
+
+def prebuild():
+    build_unit()
+
+
+def gen_unit_case(rng, big):
+    known = rng.random() < 0.55
+    ops = []
+    total = 0
+    nseg = rng.randrange(1, 7)
+    for _ in range(nseg):
+        if big:
+            ln = rng.choice([65534, 65535, 65536, 30000, 40000, 70000, 1, 2])
+        else:
+            ln = rng.choice([1, 2, 3, 5, 8, 13, 40, 200])
+        ops.append("s:" + bytes(rng.getrandbits(8) for _ in range(min(ln, 64))).hex() * (ln // 64 + 1))
+        ops[-1] = ops[-1][:2 + 2 * ln]
+        total += ln
+        for _ in range(rng.randrange(0, 4)):
+            ops.append(rng.choice(["g", "g", "sp", "nt", "sp", "g"]))
+    if known:
+        n = max(1, total + rng.choice([-3, -1, 0, 0, 0, 1, 5]))
+    tail = []
+    r = rng.random()
+    if r < 0.25:
+        ops.insert(rng.randrange(0, len(ops) + 1), "ab")
+    elif not known:
+        ops.insert(rng.randrange(max(0, len(ops) - 3), len(ops) + 1), "ef")
+    for _ in range(rng.randrange(0, 6)):
+        tail.append(rng.choice(["g", "sp", "nt", "g", "nt"]))
+    return "pipe %s %s" % (n if known else "-", " ".join(ops + tail))
+
+
+def gen_unit_cases(rng, n):
+    return [gen_unit_case(rng, big=(k % 50 == 0)) for k in range(n)]
+
+
+def unit_oracle(case, out):
+    """FIFO on the implementation's answer: bytes taken out ++ bytes buffered = the first thePutSize bytes fed;
+    never announced whole after an abort or before all bytes of a known-size body were produced"""
+    if not out.startswith("put="):
+        return ("oracle:bodypipe-unit-crash", out)
+    d = dict(w.split("=", 1) for w in out.split())
+    w = case.split()
+    fed = b""
+    aborted_at = None
+    for op in w[2:]:
+        if op.startswith("s:") and aborted_at is None:
+            fed += bytes.fromhex(op[2:])
+        elif op == "ab" and aborted_at is None:
+            aborted_at = len(fed)
+    put, get = int(d["put"]), int(d["get"])
+    if get > put or put > len(fed):
+        return ("oracle:bodypipe-counters", "get=%d put=%d fed=%d" % (get, put, len(fed)))
+    if d["pieces"].split(":", 1)[1] != rc.crc(fed[:get]) or d["buf"] != rc.crc(fed[get:put]):
+        return ("oracle:bodypipe-not-fifo", "bytes out / buffered are not the bytes put in, in order: " + out)
+    if d["whole"] == "1":
+        if d["abort"] == "1":
+            return ("oracle:bodypipe-whole-and-aborted", out)
+        if w[1] != "-" and put != int(w[1]):
+            return ("oracle:bodypipe-whole-before-all-produced", out)
+        if w[1] == "-" and ("ef" not in w or ("ab" in w and w.index("ab") < w.index("ef"))):
+            return ("oracle:bodypipe-aborted-body-announced-whole", out)
     return None
+
+
+def unit_stage(res, tier):
+    try:
+        exe = build_unit()
+    except hbuild.BuildError as ex:
+        res.fail("build", "C02: the BodyPipe harness no longer builds against /repo's working tree: %s" % str(ex)[-1200:],
+                 {"no_failing_input_found": True, "broken": "harness build h_relay", "detail": str(ex)[-3000:]})
+        return
+    runner = coq.build_runner("relay")
+    rng = random.Random(common.seed() * 1000003 + 77)
+    cases = std.load_corpus(PID) + gen_unit_cases(rng, 700 if tier == "quick" else 12000)
+    impl = [x for x in corr.run_lines(exe, cases)]
+    model = corr.run_lines(runner, cases)
+    found = 0
+    dis = []
+    for c, a, m in zip(cases, impl, model):
+        res.count_case(c, nontrivial=True, kind="unit:" + ("known" if c.split()[1] != "-" else "unknown") + ":" + " ".join(
+            w for w in a.split() if w.startswith(("whole=", "abort="))))
+        v = unit_oracle(c, a)
+        if v:
+            if res.fail(v[0], "C02 (BodyPipe unit) on `%s`: implementation answered `%s`: %s" % (c[:300], a[:300], v[1]),
+                        {"case": c, "impl": a, "model": m, "signature": v[0]}):
+                found += 1
+        elif a != m:
+            dis.append((c, a, m))
+    if dis and not found:
+        c, a, m = dis[0]
+        res.fail("corr:bodypipe-unit", "model and BodyPipe.cc disagree on %d op sequences (first: `%s` impl=`%s` model=`%s`)"
+                 % (len(dis), c[:300], a[:200], m[:200]),
+                 {"no_failing_input_found": True, "broken": "correspondence RelayModel.rq_step vs BodyPipe.cc (unit)",
+                  "case": c, "impl": a, "model": m, "disagreements": len(dis)})
+    res.extra["unit_cases"] = len(cases)
+    res.extra["unit_disagreements"] = len(dis)
 
 
 def run(res, tier):
@@ -269,3 +376,4 @@ def run(res, tier):
                 nontrivial_fn=lambda s, o: s["n"] > 0)
     _state.clear()
     _cache.clear()
+    unit_stage(res, tier)
